@@ -5,8 +5,13 @@ REGENERATED from /repo/src on every run (inspect.signature of the host callables
 treatment of every call shape), plus generic theorems lifting them to every keyword order.
 Oracle: for every callable and every subset of provided parameters, all calling conventions Python accepts (all
 positional/keyword splits, several keyword orders) must be rejected or yield byte-identical C++; and every provided value
-must influence the output (value-variation), unless Python's own result does not depend on it."""
+must influence the output (value-variation), unless Python's own result does not depend on it; and every call shape
+(a sample of them per callable) re-spelled with the optional white space of Python's grammar — blanks or tabs around the `=` of
+a keyword argument, around the commas, inside the parentheses, a trailing comma (bindprobe.STYLES) — must be rejected or
+yield the firmware of the canonical spelling of the same shape."""
 from __future__ import annotations
+
+import random
 
 import bindprobe
 import common
@@ -26,6 +31,7 @@ def run(ctx: Ctx) -> int:
     ctx.prove(["Reduino.Props.C08"])
     common.fresh_import()
     rng = ctx.rng
+    srng = random.Random(f"{ctx.seed}:C08:spelling")          # own stream: the shape enumeration keeps its sequence
     for cls, meth, params in bindprobe.callables():
         if (cls, meth) == ("LCD", "__init__"):
             params = [(n, k, d and n not in ("rs", "en", "d4", "d5", "d6", "d7")) for n, k, d in params]
@@ -50,6 +56,26 @@ def run(ctx: Ctx) -> int:
                 good = next((sh, s) for sh, o, s in runs if o == ref)
                 ctx.fail(f"bind:{cls}.{meth}", f"{cls}.{meth}: equivalent calls produce different firmware — e.g. `{good[1].splitlines()[-1]}` vs `{bad[1].splitlines()[-1]}`",
                          {"script_a": good[1], "script_b": bad[1]})
+        # the same call shape in other spellings (spaces/tabs around `=`, around commas, inside the parentheses, trailing comma): Python's grammar binds
+        # them identically, so each is rejected or yields the firmware of the canonical spelling of that very shape
+        spell = [sh for sh in shapes if sh[1] + len(sh[2]) > 0]
+        if len(spell) > ctx.n(60, 600):
+            spell = srng.sample(spell, ctx.n(60, 600))
+        for names, k, order in spell:
+            ref_src = bindprobe.call_text(cls, meth, params, (names, k, order), v1)
+            ref = cxx.transpile(ref_src)[0]
+            for style in bindprobe.STYLES[1:]:
+                src = bindprobe.call_text(cls, meth, params, (names, k, order), v1, style)
+                if src == ref_src:
+                    continue                                  # this spelling does not differ from the canonical one for this shape
+                cpp, exc = cxx.transpile(src)
+                ctx.cov["traces_validated_against_impl"] += 1
+                ctx.case(f"{cls}.{meth}|{names}|{k}|{order}|{style}", nontrivial=len(order) > 0)
+                ctx.count("spelling:" + repr(style))
+                if cpp is not None and cpp != ref:
+                    a, b = ([l for l in t.splitlines() if l not in bindprobe.HEAD.splitlines()][0 if cls == "Core" or meth == "__init__" else 1] for t in (ref_src, src))
+                    ctx.fail(f"bind:{cls}.{meth}:spelling", f"{cls}.{meth}: the same call written `{b}` is bound differently from `{a}`" + (" (which is rejected)" if ref is None else ""),
+                             {"script_a": ref_src, "script_b": src, "style": list(style)})
     # an explicitly passed falsy value (0, 0.0, False) is a value, not an omission
     import importlib, inspect
     hosts = {"Led": "Reduino.Actuators", "RGBLed": "Reduino.Actuators", "Servo": "Reduino.Actuators", "DCMotor": "Reduino.Actuators", "Buzzer": "Reduino.Actuators",
@@ -110,5 +136,7 @@ def run(ctx: Ctx) -> int:
                 src = bindprobe.call_text(cls, meth, params, (None, k, tuple(kws)), v1)
                 ctx.fail(f"bind:{cls}.{meth}", f"{cls}.{meth}: value of {unseen} does not reach the generated code in `{src.splitlines()[-1]}`", {"script": src, "unseen": list(unseen)})
     ctx.cov["rule"] = ("every constructor, method and Core helper with parameters (44 callables): all positional/keyword splits x subsets of omitted defaults accepted by "
-                       "inspect.signature, keywords in signature order, reversed and shuffled; non-trivial = at least one keyword argument; distinct = distinct (callable, shape)")
+                       "inspect.signature, keywords in signature order, reversed and shuffled; up to 60 (thorough 600) shapes per callable re-spelled in 9 white-space styles "
+                       "(`k = v`, `k =v`, `k= v`, tabs, no/extra blanks at commas and inside the parentheses, trailing comma); non-trivial = at least one keyword argument; "
+                       "distinct = distinct (callable, shape[, spelling])")
     return ctx.finish(TRUSTED, search=None)
